@@ -36,6 +36,15 @@ SCENARIOS: list[dict[str, Any]] = [
     {"name": "three", "queue": ["x", "x", "y"], "pollers": [("A", 2), ("B", 2), ("C", 1)]},
     {"name": "four-retry", "queue": ["x", "y", "x"], "retry": True, "pollers": [("A", 1), ("B", 2), ("C", 1), ("D", 1)]},
     {"name": "batch-client", "queue": [], "batch": 3, "pollers": [("A", 2)]},
+    # a request of the old owner A overlapping a complete release + re-claim by B (status returns to the same value under another owner)
+    {"name": "aba-running", "queue": [], "aba": "running", "pollers": []},
+    {"name": "aba-pending", "queue": [], "aba": "pending", "pollers": []},
+    # owner releases while two pollers hold a copy of the id each (three parties on one per-invocation critical section)
+    {"name": "release-race", "queue": [], "release_race": True, "pollers": [("B", 1), ("C", 1)], "mem_files": ("pynenc/orchestrator/mem_orchestrator.py",), "extras_first": True, "dfs": (2, 16, 2, 16),
+     "mem_funcs": ("_atomic_status_transition", "_get_invocation_lock", "_interanl_atomic_status_transition")},
+    {"name": "dup-critical-section", "queue": ["x", "x"], "pollers": [("A", 2), ("B", 2)], "mem_files": ("pynenc/orchestrator/mem_orchestrator.py",), "dfs": (2, 4, 2, 4),
+     "mem_funcs": ("_atomic_status_transition", "_get_invocation_lock", "_interanl_atomic_status_transition")},
+    {"name": "release-race-all-lines", "queue": [], "release_race": True, "pollers": [("B", 1), ("C", 1)], "mem_files": ("pynenc/orchestrator/mem_orchestrator.py",), "extras_first": True, "dfs": (0, 0, 2, 16)},
 ]
 
 MEM_FILES = (
@@ -80,7 +89,7 @@ def setup_env(kind: str, sc: dict, clock: vclock.VClock, shared: dict) -> Env:
     mon = scen.Monitor(app, clock)
     env.mon = mon
     ids: dict[str, str] = {}
-    for name in sorted(set(sc["queue"]) | ({"x"} if (sc.get("recovery") or sc.get("kill")) else set())):
+    for name in sorted(set(sc["queue"]) | ({"x"} if (sc.get("recovery") or sc.get("kill") or sc.get("aba") or sc.get("release_race")) else set())):
         inv = task(name, 0, 0)
         ids[name] = inv.invocation_id
     # duplicates: route the same id again
@@ -151,6 +160,61 @@ def setup_env(kind: str, sc: dict, clock: vclock.VClock, shared: dict) -> Env:
             runner._kill_and_reroute(ids["x"])
 
         env.extra_actors = [("A-body", owner_runs), ("A-kill", killer)]
+    if sc.get("aba"):
+        A, B = apps.rctx("A"), apps.rctx("B")
+        runner = ThreadRunner(app, runner_context=A)
+        app.broker.retrieve_invocation()
+        app.orchestrator.set_invocation_status(ids["x"], S.PENDING, A)
+        ainv = app.state_backend.get_invocation(ids["x"])
+        if sc["aba"] == "running":
+            app.orchestrator.set_invocation_status(ids["x"], S.RUNNING, A)
+
+        def steps(*fns):
+            def world():
+                for fn in fns:
+                    try:
+                        fn()
+                    except Exception:  # noqa: BLE001 - a step refused because the other actor got there first
+                        pass
+            return world
+
+        def b_claims():
+            env.b_claimed = list(app.orchestrator.get_invocations_to_run(1, B))
+
+        if sc["aba"] == "running":
+            def stale():
+                runner._kill_and_reroute(ids["x"])
+
+            world = steps(lambda: app.orchestrator.set_invocation_retry(ids["x"], RetryError("again"), A), b_claims,
+                          lambda: app.orchestrator.set_invocation_status(ids["x"], S.RUNNING, B))
+        else:
+            def stale():
+                try:
+                    ainv.run(A)
+                except Exception:  # noqa: BLE001
+                    pass
+
+            def rec():
+                from pynenc.core_tasks import recover_pending_invocations
+
+                clock.advance(6.0)
+                context.set_current_app(app)
+                context.set_runner_context(app.app_id, apps.rctx("REC"))
+                recover_pending_invocations()
+
+            world = steps(rec, b_claims)
+        env.extra_actors = [("A-stale", stale), ("world", world)]
+    if sc.get("release_race"):
+        A = apps.rctx("A")
+        app.broker.retrieve_invocation()
+        app.orchestrator.set_invocation_status(ids["x"], S.PENDING, A)
+        app.broker.route_invocation(ids["x"])
+        app.broker.route_invocation(ids["x"])
+
+        def release():
+            app.orchestrator.reroute_invocations({ids["x"]}, A)
+
+        env.extra_actors = [("A-release", release)]
     if sc.get("batch"):
         nb = sc["batch"]
 
@@ -167,9 +231,9 @@ def setup_env(kind: str, sc: dict, clock: vclock.VClock, shared: dict) -> Env:
 def run_scenario(kind: str, sc: dict, policy: sched.Policy, clock: vclock.VClock, shared: dict) -> tuple[sched.Scheduler, Env]:
     env = setup_env(kind, sc, clock, shared)
     app = env.app
-    files = MEM_FILES + (HISTORY_FILES if shared.get("trace_history") else ())
+    files = tuple(sc.get("mem_files", MEM_FILES)) + (HISTORY_FILES if shared.get("trace_history") else ())
     tf = sched.trace_file_set(*files) if kind == "mem" else sched.trace_file_set("pynenc/core_tasks.py", *(HISTORY_FILES[1:] if shared.get("trace_history") else ()))
-    s = sched.Scheduler(policy, clock=clock, trace_files=tf, max_steps=60_000, quantum_us=0)
+    s = sched.Scheduler(policy, clock=clock, trace_files=tf, max_steps=60_000, quantum_us=0, trace_funcs=set(sc["mem_funcs"]) if (kind == "mem" and sc.get("mem_funcs")) else None)
     env.poll_errors = []
     # claim-window tracking for the non-triviality rule: a forced switch while some poller is inside get_invocations_to_run
     env.in_poll = {"n": 0, "switch_inside": 0}
@@ -202,10 +266,14 @@ def run_scenario(kind: str, sc: dict, policy: sched.Policy, clock: vclock.VClock
         last["a"] = nxt
 
     s.on_step = on_step
+    if sc.get("extras_first"):
+        for name, fn in env.extra_actors:
+            s.spawn(name, fn)
     for rid, m in sc["pollers"]:
         s.spawn(f"poll-{rid}", poller(rid, m))
-    for name, fn in env.extra_actors:
-        s.spawn(name, fn)
+    if not sc.get("extras_first"):
+        for name, fn in env.extra_actors:
+            s.spawn(name, fn)
     try:
         s.run()
     finally:
@@ -221,7 +289,7 @@ def judge(env: Env) -> list[tuple[str, str]]:
     return scen.lifecycle_problems(mon) + scen.yield_problems(mon) + scen.body_problems(mon)
 
 
-def shard(kind: str, sc_idx: int, mode: str, p_max: int, runs: int, seed: int, known: list[str], with_history: bool = False, part_name: str = "schedules", rule: str = RULE) -> dict:
+def shard(kind: str, sc_idx: int, mode: str, p_max: int, runs: int, seed: int, known: list[str], with_history: bool = False, part_name: str = "schedules", rule: str = RULE, dfs_part: tuple[int, int] | None = None) -> dict:
     part = Part(part_name, rule)
     clock = vclock.VClock(tick_us=1)
     cinst = vclock.install(clock)
@@ -238,7 +306,7 @@ def shard(kind: str, sc_idx: int, mode: str, p_max: int, runs: int, seed: int, k
             return s
 
         if mode == "dfs":
-            it = explore.dfs_preemptions(run_with, p_max, limit=runs)
+            it = explore.dfs_preemptions(run_with, p_max, limit=runs, part=dfs_part)
         elif mode == "pct":
             it = explore.pct_runs(run_with, seed, runs, depth=3, est_steps=400 if kind == "mem" else 80)
         else:
@@ -284,8 +352,18 @@ def plan(ctx: Ctx) -> list[tuple]:
     jobs = []
     for kind in ("mem", "sqlite"):
         for i, sc in enumerate(SCENARIOS):
-            nact = len(sc["pollers"]) + (2 if (sc.get("recovery") or sc.get("kill")) else 0) + (1 if sc.get("batch") else 0)
-            if nact == 2:
+            nact = len(sc["pollers"]) + (2 if (sc.get("recovery") or sc.get("kill") or sc.get("aba")) else 0) + (1 if (sc.get("batch") or sc.get("release_race")) else 0)
+            if sc.get("dfs"):
+                pq, nq, pt, nt_ = sc["dfs"]  # complete search with <= p forced switches, split over n processes
+                if kind == "mem":
+                    nsh = nq if ctx.quick else nt_
+                    if nsh == 0:
+                        continue
+                    for j in range(nsh):
+                        jobs.append((kind, i, "dfs", pq if ctx.quick else pt, 10**9, ctx.seed, known, False, "schedules", RULE, (j, nsh)))
+                else:
+                    jobs.append((kind, i, "pct", 0, 60 if ctx.quick else 2500, ctx.seed, known))
+            elif nact == 2:
                 if ctx.quick:
                     jobs.append((kind, i, "dfs", 1, 260 if kind == "mem" else 400, ctx.seed, known))
                 else:
